@@ -175,6 +175,12 @@ func (s *Service) Aggregate(ctx context.Context, duty *synccommitteeaggregator.D
 	contributionAndProofs := make([]*altair.ContributionAndProof, 0)
 	accounts := make([]e2wtypes.Account, 0)
 	for _, validatorIndex := range duty.ValidatorIndices {
+		account, exists := duty.Accounts[validatorIndex]
+		if !exists {
+			// Carry on with the other aggregators; their contributions are independent of this one.
+			log.Debug().Uint64("validator_index", uint64(validatorIndex)).Msg("Account nil; likely exited validator still in sync committee")
+			continue
+		}
 		for subcommitteeIndex := range duty.SelectionProofs[validatorIndex] {
 			log.Trace().Uint64("validator_index", uint64(validatorIndex)).Uint64("subcommittee_index", subcommitteeIndex).Str("beacon_block_root", fmt.Sprintf("%#x", *beaconBlockRoot)).Msg("Aggregating")
 			contributionResponse, err := s.syncCommitteeContributionProvider.SyncCommitteeContribution(ctx, &api.SyncCommitteeContributionOpts{
@@ -194,14 +200,13 @@ func (s *Service) Aggregate(ctx context.Context, duty *synccommitteeaggregator.D
 				SelectionProof:  duty.SelectionProofs[validatorIndex][subcommitteeIndex],
 			}
 			contributionAndProofs = append(contributionAndProofs, contributionAndProof)
-			account, exists := duty.Accounts[validatorIndex]
-			if !exists {
-				log.Debug().Msg("Account nil; likely exited validator still in sync committee")
-				monitorSyncCommitteeAggregationsCompleted(started, duty.Slot, len(duty.ValidatorIndices), "exited", startOfSlot)
-				return
-			}
 			accounts = append(accounts, account)
 		}
+	}
+	if len(contributionAndProofs) == 0 {
+		log.Debug().Msg("No accounts to aggregate sync committee contributions for")
+		monitorSyncCommitteeAggregationsCompleted(started, duty.Slot, len(duty.ValidatorIndices), "exited", startOfSlot)
+		return
 	}
 
 	sigs, err := s.contributionAndProofSigner.SignContributionAndProofs(ctx, accounts, contributionAndProofs)
